@@ -33,6 +33,7 @@ def check(repo, rep, tier):
     rep.rule('R3.6', 'registry complete; apply_binary_rules filter-free fold; None only on unification failure / R3.3')
     rg.check_is_modifier(mod, rep, 'R3.2')
     rg.check_is_punct(mod, rep, 'R3.4')
+    rg.check_is_type_raised(mod, rep, 'R3.4')
     labels = set()
     fns = combinator_functions(mod)
     for name, fn in fns:
